@@ -222,11 +222,32 @@ NP_KERNELS = [
                        ('positive', 'Bool')],
             externals={'mh.msm.peq': ('ext_peq', ['L[L[Rat]]'], 'L[Rat]')})),
     ]),
+    ('statetraj.py', 'StateTrajEst', 'StateTraj', [
+        ('estimate_markov_model', dict(params=['Int'], ret='T[L[L[Rat]],L[Int]]', param_names=['lagtime'],
+                                       selfattrs=[('_trajs', 'L[L[Int]]'), ('_states', 'L[Int]')],
+                                       self_props={'states': 'self._states.copy()', 'nstates': 'len(self._states.copy())',
+                                                   'index_trajs': '[traj.copy() for traj in self._trajs]'},
+                                       extra_params=[('cfg_disable_jit', 'Bool')])),
+    ]),
+    ('statetraj.py', 'LumpedEst', 'LumpedStateTraj', [
+        ('estimate_markov_model', dict(params=['Int'], ret='T[L[L[Rat]],L[Int]]', param_names=['lagtime'],
+                                       selfattrs=[('_trajs', 'L[L[Int]]'), ('_states', 'L[Int]'), ('_macrostates', 'L[Int]'), ('_state_assignment', 'L[Int]'),
+                                                  ('positive', 'Bool')],
+                                       self_props={'states': 'self._macrostates.copy()', 'nstates': 'len(self._macrostates.copy())',
+                                                   'microstates': 'self._states.copy()', 'nmicrostates': 'len(self._states.copy())',
+                                                   'state_assignment': 'self._state_assignment.copy()',
+                                                   'microstate_index_trajs': '[traj.copy() for traj in self._trajs]'},
+                                       selfcalls=['_estimate_markov_model', '_state_assignment_idx'],
+                                       selfcall_ns={'_estimate_markov_model': 'StateTrajHS', '_state_assignment_idx': 'LumpedAcc'},
+                                       externals={'mh.msm.peq': ('ext_peq', ['L[L[Rat]]'], 'L[Rat]')},
+                                       extra_params=[('cfg_disable_jit', 'Bool')])),
+    ]),
 ]
 
 # calls of translated functions of OTHER modules: dotted python name -> (namespace, function)
 XREF = {
     'mh.utils.unique': ('UtilsRelabel', 'unique'),
+    'mh.msm.msm._estimate_markov_model': ('MsmEstimate', 'estimate_markov_model_perm'),
     'utils.tests.is_ergodic': ('UtilsTests', 'is_ergodic'),
     'utils.tests.is_fuzzy_ergodic': ('UtilsTests', 'is_fuzzy_ergodic'),
     'mh.shift_data': ('UtilsRelabel', 'shift_data'),
@@ -414,6 +435,10 @@ class _Prep(ast.NodeTransformer):
         d = _dotted(node.func)
         if d == 'len' and len(node.args) == 1 and isinstance(node.args[0], ast.Name) and node.args[0].id == 'self' and 'len_self' in self.self_props_raw:
             return self.visit(ast.parse(self.self_props_raw['len_self'], mode='eval').body)
+        if isinstance(node.func, ast.Attribute) and isinstance(node.func.value, ast.Name) and node.func.value.id == 'self' \
+                and node.func.attr in self.selfcalls:
+            return ast.copy_location(ast.Call(func=ast.Name(id='selfcall__' + node.func.attr, ctx=ast.Load()),
+                                              args=[self.visit(a_) for a_ in node.args], keywords=[]), node)
         if self.kwargs_consts is not None and any(k.arg is None for k in node.keywords):
             node.keywords = [k for k in node.keywords if k.arg is not None] + \
                 [ast.keyword(arg=kk, value=ast.Constant(value=vv)) for kk, vv in self.kwargs_consts.items()]
@@ -474,6 +499,7 @@ def prepare(node, sig):
     a = node.args
     prep = _Prep(sig)
     prep.consts = dict(prep.consts)
+    sig['_prep'] = prep
     new_body = []
     for st in node.body:
         r = prep.visit(st)
@@ -542,6 +568,9 @@ class NpFn(Fn):
                                    lineno=node.lineno, col_offset=node.col_offset)
         Fn.__init__(self, node, dict(sig, params=sig['params']), module_fns, src_file, ns)
         self.ptypes = [parse_type(p) for p in sig['params']]
+        for pn_, pt_ in sig.get('extra_params', []):
+            self.params = self.params + [pn_]
+            self.ptypes = self.ptypes + [parse_type(pt_)]
         self.ret = parse_type(sig['ret'])
         self.hints = {k: parse_type(v) for k, v in sig.get('locals', {}).items()}
         # defaults of trailing parameters (python source)
@@ -1241,15 +1270,31 @@ class NpFn(Fn):
                 return pre, c, t
             if name and name.startswith('selfcall__'):
                 attr_ = name[len('selfcall__'):]
-                callee = REGISTRY.get((self.ns, attr_)) or REGISTRY.get((self.ns, attr_.lstrip('_')))
+                ns_ = self.sig.get('selfcall_ns', {}).get(attr_, self.ns)
+                callee = REGISTRY.get((ns_, attr_)) or REGISTRY.get((ns_, attr_.lstrip('_')))
                 if callee is None:
                     raise Unsupported('%s: property %s is not translated' % (self.name, name))
                 mine = {a_ for a_, _t in self.selfattrs} | set(self.sig.get('self_locals', []))
-                cs = []
-                for a_, _t in callee.selfattrs:
-                    if a_ not in mine:
-                        raise Unsupported('%s: property %s needs self.%s' % (self.name, name, a_))
-                    cs.append('self_' + a_.lstrip('_'))
+                cs = list(callee.ext_params())
+                for x_ in callee.ext_params():
+                    if x_ not in self.used_ext:
+                        self.used_ext.append(x_)
+                    if x_ not in [v_[0] for v_ in self.externals.values()]:
+                        raise Unsupported('%s: oracle %s of %s is not declared by the caller' % (self.name, x_, attr_))
+                for a_, t_ in callee.selfattrs:
+                    if a_ in mine:
+                        cs.append('self_' + a_.lstrip('_'))
+                        continue
+                    # the callee reads a PROPERTY of the object: evaluate `self.<a_>` in the caller's terms
+                    prep = self.sig.get('_prep')
+                    node_ = ast.Attribute(value=ast.Name(id='self', ctx=ast.Load()), attr=a_, ctx=ast.Load())
+                    node_ = prep.visit(node_) if prep is not None else node_
+                    ast.fix_missing_locations(node_)
+                    c, t = sub(node_)
+                    cs.append(self.coerce(c, t, t_))
+                for x, pt in zip(args, callee.ptypes):
+                    c, t = sub(x, want=pt)
+                    cs.append(self.coerce(c, t, pt))
                 c, t = eff('MsmVerif.Gen.%s.%s %s' % (callee.ns, callee.lname_def(), ' '.join(cs)), callee.ret)
                 return pre, c, t
             if name == 'np.diagonal' and len(args) == 1:
@@ -1300,6 +1345,8 @@ class NpFn(Fn):
                     elif p in callee.defaults:
                         c, t = callee.const_default(callee.defaults[p])
                         cs.append(self.coerce(c, t, pt))
+                    elif p.startswith('cfg_') and p in self.env:
+                        cs.append(p)             # the configuration flag of the caller is the configuration flag of the callee
                     else:
                         raise Unsupported('%s: call of %s misses argument %s' % (self.name, callee.name, p))
                 head = 'MsmVerif.Gen.%s.%s' % (callee.ns, callee.lname_def())
